@@ -89,6 +89,7 @@ type Machine struct {
 	inInit   int
 	globals  map[*ssa.Global]*Cell
 	initDone map[*ssa.Package]bool // integer atoms standing for float->int conversions etc.
+	onceDone map[*Cell]bool        // sync.Once objects whose function has run on this path
 }
 
 func NewMachine(prog *ssa.Program) *Machine {
@@ -385,6 +386,7 @@ func (m *Machine) resetPath() {
 	m.forkAt = nil
 	m.globals = nil
 	m.initDone = nil
+	m.onceDone = nil
 }
 
 func (m *Machine) runOnce(body func()) (err error) {
